@@ -119,6 +119,15 @@ func genC04(e *emitter, tier string) {
 			[]*TJ{smallT(dt, []int{2, 3}, 1), smallT(dt, []int{2, 3}, 2), smallT(dt, []int{2, 2}, 3)}, nil))
 		e.emit(opCase("matmul-dtypes", "MatMul", nil, []*TJ{smallT(dt, []int{3}, 1), smallT(dt, []int{2, 3, 2}, 2)}, nil))
 	}
+	// larger matrices (BLAS-style kernels block at 64 and switch strategy with size); small integers keep float32 exact
+	for _, d := range [][3]int{{66, 65, 33}, {130, 3, 40}, {1, 200, 1}, {65, 1, 65}} {
+		a := seqT("f32", []int{d[0], d[1]}, func(i int) float64 { return float64((i*7+1)%7 - 3) })
+		b := seqT("f32", []int{d[1], d[2]}, func(i int) float64 { return float64((i*5+2)%5 - 2) })
+		e.emit(opCase("large", "MatMul", nil, []*TJ{a, b}, nil))
+		bt := seqT("f32", []int{d[2], d[1]}, func(i int) float64 { return float64((i*5+2)%5 - 2) })
+		e.emit(opCase("large", "Gemm", []Attr{{Name: "transB", Type: "i", I: 1}}, []*TJ{a, bt, seqT("f32", []int{d[2]}, func(i int) float64 { return float64(i % 3) })}, nil))
+		e.emit(opCase("large", "MatMul", nil, []*TJ{seqT("f32", []int{2, d[0], d[1]}, func(i int) float64 { return float64((i*3+1)%5 - 2) }), b}, nil))
+	}
 	// the same tensor object at two input positions (a node listing one name twice: Gram matrices, X·X)
 	for _, s := range [][]int{{2, 2}, {3, 3}, {2, 3}, {1, 2}} {
 		x := smallT("f32", s, 5)
